@@ -2,10 +2,12 @@ module ruxverif/harness
 
 go 1.19
 
-require github.com/gookit/rux v0.0.0
+require (
+	github.com/gookit/color v1.5.4
+	github.com/gookit/rux v0.0.0
+)
 
 require (
-	github.com/gookit/color v1.5.4 // indirect
 	github.com/gookit/filter v1.2.2 // indirect
 	github.com/gookit/goutil v0.6.18 // indirect
 	github.com/gookit/validate v1.5.4 // indirect
